@@ -237,6 +237,9 @@ func (a *Analyzer) onRPC(n *nodeState, r *ev.Rec) {
 			}
 			a.stat("leader-requests-checked")
 		}
+		if accepted && (r.RPC == "append" || r.RPC == "installSnap") && !a.isWire(r.Src) {
+			a.onLeaderContact(n, r.Src, r.ReqTerm, r.Q)
+		}
 		if r.RPC == "append" && r.Res == "success" {
 			a.stat("append-acks")
 			// engine B: an acknowledged request's entries are in the log
@@ -442,6 +445,9 @@ func (a *Analyzer) onExclusive(n *nodeState, r *ev.Rec) {
 }
 
 func (a *Analyzer) onServeExit(n *nodeState, r *ev.Rec) {
+	if n != nil {
+		n.followL, n.followT, n.othersServed = 0, 0, nil
+	}
 	if n == nil {
 		return
 	}
@@ -458,6 +464,9 @@ func (a *Analyzer) onServeExit(n *nodeState, r *ev.Rec) {
 }
 
 func (a *Analyzer) onShuttingDown(n *nodeState, r *ev.Rec) {
+	if n != nil {
+		n.followL, n.followT, n.othersServed = 0, 0, nil
+	}
 	if n == nil {
 		return
 	}
